@@ -220,7 +220,17 @@ def m_regex_new(it, ctx, a, m, f):
     ok = getattr(ctx, 'regex_valid', None)
     if ok is None:
         raise Unsupported('regex::Regex::new outside the pattern-visitor kernel')
+    if any(S(a[0]) is e for e in getattr(ctx, 'regex_escaped', ())):
+        return Adt('Result', 'Ok', [Opaque('regex', S(a[0]))])        # contract of regex::escape: its result always compiles
     return Adt('Result', 'Ok', [Opaque('regex', S(a[0]))]) if ctx.decide(ok) else Adt('Result', 'Err', [Opaque('regex-error')])
+
+
+@model(r'^(regex::)?escape$')
+def m_regex_escape(it, ctx, a, m, f):
+    # the escaped text stands for a literal match; its exact spelling does not matter to this kernel, its validity does
+    out = SStr(list(S(a[0]).cs))
+    ctx.regex_escaped = list(getattr(ctx, 'regex_escaped', ())) + [out]
+    return out
 
 
 @model(r'^options::Regex$')
@@ -282,6 +292,15 @@ def confirm_config(v):
         entry = (v.get('info') or {}).get('entry')
         e3 = driver.E3()
         try:
+            info = v.get('info') or {}
+            if info.get('regex_accepts') is False and info.get('result') == 'Ok':
+                # a pattern the regex engine rejects was accepted: confirmed if the native build reads `(` without an error
+                if entry == 'visit_string':
+                    r = e3.run('const a = 1;', {'customElementPatterns': ['(']})
+                else:
+                    r = e3.run('const a = 1;', None, options_text='{"customElementPatterns": ["(%s"]}' % ('\\u0028' if entry == 'visit_str' else ''))
+                v['native'] = {k: r.get(k) for k in ('options_error', 'options_debug')}
+                return 'options_error' not in r
             if entry == 'visit_string':
                 r = e3.run('const a = 1;', {'customElementPatterns': ['^x-']})
             else:
